@@ -1,5 +1,5 @@
 (* C16 — Log records round-trip and replay in transaction units.
-   Theorem statements only; every proof is an application of a lemma from the proof files.
+   Only theorem statements; every proof is an application of a lemma from the proof files.
    Models: base/Crc32c.v (CRC-32C), A/LogRecord.v (logFile.encodeEntry, safeRead.Entry,
    header.DecodeFrom, logFile.decodeEntry), A/LogIter.v (logFile.iterate) — the same definitions
    the correspondence (corr/CorrC16.v) evaluates against the Go code on every run.
@@ -56,6 +56,15 @@ Example C16_iterate_order_ex :
   fst (iterate false xs_id [] (encode_units false xs_id [] ex_units 20) 20)
   = [mkDel ex_plain 20 (rec_size ex_plain); mkDel ex_t1 40 (rec_size ex_t1); mkDel ex_t2 60 (rec_size ex_t2)].
 Proof. split; [exact ex_units_wf | split; vm_compute; reflexivity]. Qed.
+
+(* logFile.iterate(readOnly, offset, fn) on the whole file image: offset 0 means "after the 20-byte
+   header (key id, base IV)", any other offset is the position of a record *)
+Theorem C16_iterate_file : forall encrypted xs base_iv pre buf offset,
+  N.of_nat (length pre) = (if offset =? 0 then c_vlogHeaderSize else offset) ->
+  iterate_file encrypted xs base_iv (pre ++ buf) offset
+  = iterate encrypted xs base_iv buf (N.of_nat (length pre)).
+Proof. exact iterate_file_spec. Qed.
+Print Assumptions C16_iterate_file.
 
 (* FOR EVERY BYTE STRING (not only well-formed logs): the deliveries decompose into whole units
    read from the input — a plain entry, or all transactional entries of one version read back to
